@@ -380,7 +380,7 @@ def conformance(work):
     table("_parse_byte_arguments", items, "(parse_byte_arguments_gen 50)", "(opt_beq (list string) (list_beq string String.eqb))")
     # parse_line: None / class name of the instruction / exception
     items = []
-    for s in lines[:43] + ["err", "int x", "byte", "byte 0x 0x", "method \"f()\"", "unknownop 1", "lab: x", "a:", ":", "gtxn 0", "intcblock 1 2", "b64: x"]:
+    for s in lines[:43] + ["err", "int x", "byte", "byte 0x 0x", "method \"f()\"", "unknownop 1", "lab: x", "a:", ":", "gtxn 0", "intcblock 1 2", "b64: x", "frame_dig -1", "frame_bury -128", "frame_dig -0x1"]:
         k, v = attempt(P.parse_line, s)
         if k == "exc" and v not in ("ParseError", "ValueError", "IndexError", "KeyError"):
             continue
